@@ -1,5 +1,6 @@
 import PlushModel
 import PlushProofs.Lib.PlainRender
+import PlushProofs.Lib.StringLit
 /-!
   C02 — output = literal text verbatim + values of `<%= %>` tags, in source order.
   Evaluator half: theorems about `compileStmts` / `evalStmtBody` (models of compiler.compile and
@@ -94,5 +95,50 @@ example : LX.Plain #[97, 60, 98, 37, 62, 99, 92] := by
   · intro i
     rcases i with _|_|_|_|_|_|_|i
     all_goals first | decide | (intro h; have h1 := h.1; rw [LX.getD_zero_of_ge _ _ (by simp)] at h1; exact absurd h1 (by decide))
+
+/-- **a double-quoted string denotes exactly its content** (for EVERY content): let `c` be any byte string free of
+    NUL and backslash — quotes, tag delimiters `<%` `%>`, `#`, newlines, braces, multi-byte runes all allowed. When the
+    scanner, in code mode, stands on a `"` that is followed by the spelling of `c` (each `"` of `c` written `\"`) and a
+    closing `"`, the next token is the STRING whose literal is `c` itself, stamped with the line the string starts on;
+    the scan goes on right after the closing quote, still in code mode (nothing inside the string was taken for a
+    delimiter), and no slice expression went out of range. -/
+theorem C02_double_quoted_string_denotes_its_content (l : LX) (w : l.WF) (hin : l.inside = true) (hch : l.ch = 34)
+    (c : Bytes) (hno : ∀ x ∈ c, x ≠ 0 ∧ x ≠ 92) (hs : LX.Spells l.input (l.pos + 1) (LX.escQ c ++ [34])) :
+    l.nextToken.1 = { type := .STRING, lit := c, line := l.line }
+      ∧ l.nextToken.2.pos = l.pos + 2 + (LX.escQ c).length ∧ l.nextToken.2.inside = true ∧ l.nextToken.2.WF :=
+  LX.nextToken_string l w hin hch c hno hs
+
+/-- **a back-quoted string is taken raw**: whatever stands between two back quotes (no back quote, no NUL; backslashes,
+    double quotes, tag delimiters, newlines allowed) IS the literal of the B_STRING token, byte for byte. -/
+theorem C02_back_quoted_string_is_raw (l : LX) (w : l.WF) (hin : l.inside = true) (hch : l.ch = 96) (e : Nat)
+    (hlt : l.pos < e) (hcl : l.input.getD e 0 = 96)
+    (hb : ∀ i, l.pos < i → i < e → l.input.getD i 0 ≠ 96 ∧ l.input.getD i 0 ≠ 0) :
+    l.nextToken.1 = { type := .B_STRING, lit := (l.input.extract (l.pos + 1) e).toList, line := l.line }
+      ∧ l.nextToken.2.pos = e + 1 ∧ l.nextToken.2.inside = true ∧ l.nextToken.2.WF :=
+  LX.nextToken_bstring l w hin hch e hlt hcl hb
+
+/-- the spelling is undone exactly: `strings.Replace(esc c, `\"`, `"`)` is `c` for every backslash-free `c` -/
+theorem C02_unescape_inverts_escape (c : Bytes) (h : (92 : UInt8) ∉ c) : replaceAll [92, 34] [34] (LX.escQ c) = c :=
+  LX.replaceAll_escQ c h
+
+/-- the limit of the escape (a WITNESS, not a law): content ending in a backslash has no spelling — in `"a\"` the
+    `\"` is an escaped quote, the string loop runs on to the end of the input (position 4 of 4) -/
+example : (LX.readStringLoop 6 (LX.new #[34, 97, 92, 34])).pos = 4 := by decide
+
+/-- non-vacuity: on `"a\"<%#"` + blank the hypotheses hold with content `a"<%#`, and the theorem's conclusion is what the
+    scanner computes -/
+example : LX.Spells #[34, 97, 92, 34, 60, 37, 35, 34, 32] 1 (LX.escQ [97, 34, 60, 37, 35] ++ [34]) := by
+  intro j hj
+  have : j < 7 := by simpa [LX.escQ] using hj
+  rcases j with _|_|_|_|_|_|_|j <;> first | rfl | omega
+example : ({ LX.new #[34, 97, 92, 34, 60, 37, 35, 34, 32] with inside := true } : LX).nextToken.1
+    = { type := .STRING, lit := [97, 34, 60, 37, 35], line := 1 } := by
+  have h := C02_double_quoted_string_denotes_its_content
+    ({ LX.new #[34, 97, 92, 34, 60, 37, 35, 34, 32] with inside := true } : LX)
+    (LX.wf_setInside (LX.new_wf _) true) rfl rfl [97, 34, 60, 37, 35] (by decide)
+    (by intro j hj
+        have : j < 7 := by simpa [LX.escQ] using hj
+        rcases j with _|_|_|_|_|_|_|j <;> first | rfl | omega)
+  exact h.1
 
 end Plush
